@@ -123,10 +123,69 @@ def cross_execution(ctx):
     return reproduced
 
 
+def default_arg_calls(ctx):
+    """oracle only: task calls used as default arguments run under the calling job's context (JobEnv parent)."""
+    from redun import task
+    from redun.context import get_context
+    ctl_sched.quiet()
+
+    @task(namespace="c05d", version="1")
+    def reader(a=get_context("a", 0), s=get_context("site", "-")):
+        return [a, s]
+
+    @task(namespace="c05d", version="1")
+    def helper():
+        # same eval hash under every context; its final value depends on the context through `reader`
+        return reader()
+
+    @task(namespace="c05d", version="1")
+    def leaf(x, h=helper()):
+        return [x, h]
+
+    @task(namespace="c05d", version="1", check_valid="shallow")
+    def leaf_s(x, h=helper()):
+        return [x, h]
+
+    @task(namespace="c05d", version="1")
+    def both(first, second):
+        return [first, second]
+
+    overrides = [{}, {"a": 1}, {"a": 2}]
+    for exec_ctx in ({}, {"site": "x"}):
+        for t in (leaf, leaf_s):
+            for i, j in itertools.product(range(3), repeat=2):
+                for mode in ("one-execution", "two-executions"):
+                    def call(k, x):
+                        o = overrides[k]
+                        return (t.update_context(o) if o else t)(x)
+                    sched = ctl_sched.make_scheduler(None)
+                    try:
+                        if mode == "one-execution":
+                            got = sched.run(both(call(i, 1), call(j, 2)), context=exec_ctx)
+                        else:
+                            got = [sched.run(call(i, 1), context=exec_ctx), sched.run(call(j, 2), context=exec_ctx)]
+                    except Exception as e:  # noqa: BLE001
+                        got = "!" + type(e).__name__
+                    site = exec_ctx.get("site", "-")
+                    exp = [[1, [overrides[i].get("a", 0), site]], [2, [overrides[j].get("a", 0), site]]]
+                    ctx.case(key=("defarg", json.dumps(exec_ctx), t.name, i, j, mode) if i != j else None,
+                             sample={"exec_context": exec_ctx, "task": t.name, "overrides": [overrides[i], overrides[j]], "mode": mode,
+                                     "result": repr(got)[:80]}, kind="default-arg-call")
+                    if got != exp:
+                        free = (not exec_ctx) and (not overrides[i] or not overrides[j])
+                        sig = KNOWN_SIG if free and isinstance(got, list) and (
+                            (not overrides[j] and got[1] != exp[1]) or (not overrides[i] and got[0] != exp[0])) else \
+                            "C05-result-shared-across-contexts"
+                        ctx.violation(sig, "a task call used as a default argument returned the value of another context",
+                                      case={"exec_context": exec_ctx, "task": t.name, "overrides": [overrides[i], overrides[j]], "mode": mode},
+                                      expected=exp, actual=got, kind="history")
+
+
 def run(ctx):
     rng = ctx.rng
     items = []
     reproduced = False
+    default_arg_calls(ctx)
     for defs, cfg in CORPUS:
         p = c06.mk_prog(defs, cfg)
         for ctl, hit in sc.enumerate_schedules_pairs(lambda d: one_run(ctx, p, decisions=d, items=items, tag="corpus-exhaustive"),
